@@ -276,6 +276,17 @@ def answer (ts : List String) : String :=
         | some now => showSorted ((Mdns.known s service now).map showInstance)
         | none => "bad-op"
       | _ => "bad-op"
+    | some (_, "P" :: ts) =>
+      -- the reports on the on_discovery channel for one response
+      match pName ts with
+      | some (service, ts) =>
+        match pName ts with
+        | some (full, ts) =>
+          match pPacket ts with
+          | some (p, []) => showSorted ((Mdns.reports p service full).map showInstance)
+          | _ => "bad-op"
+        | none => "bad-op"
+      | none => "bad-op"
     | some (s, ["N", now]) =>
       match now.toNat? with
       | some now =>
